@@ -1107,7 +1107,11 @@ search:
 			rr.Note = "inputs cannot be constructed: " + g.fail
 			return rr
 		}
-		g.decls = append(g.decls, fmt.Sprintf("%s := %s", in.Path, e))
+		if e == "nil" {
+			g.decls = append(g.decls, fmt.Sprintf("var %s %s", in.Path, g.typ(in.Typ)))
+		} else {
+			g.decls = append(g.decls, fmt.Sprintf("%s := %s", in.Path, e))
+		}
 		argExprs = append(argExprs, in.Path)
 	}
 	for _, d := range g.decls {
@@ -1275,7 +1279,37 @@ func runReplay(repo string, rr *ReplayResult) {
 	pkgDir := filepath.Join(repo, rr.Package)
 	tf := filepath.Join(dir, "zz_govc_replay_test.go")
 	os.WriteFile(tf, []byte(rr.TestSource), 0o644)
-	ov, _ := json.Marshal(map[string]interface{}{"Replace": map[string]string{filepath.Join(pkgDir, "zz_govc_replay_test.go"): tf}})
+	repl := map[string]string{filepath.Join(pkgDir, "zz_govc_replay_test.go"): tf}
+	// The package's own test files are blanked in the overlay (package clause only): the
+	// replay needs none of them, and their imports are what makes several test binaries of
+	// this repository fail at start-up in the sandbox (flux's stdlib initialisation).
+	if ents, err := os.ReadDir(pkgDir); err == nil {
+		n := 0
+		for _, e := range ents {
+			if e.IsDir() || !strings.HasSuffix(e.Name(), "_test.go") {
+				continue
+			}
+			src, err := os.ReadFile(filepath.Join(pkgDir, e.Name()))
+			if err != nil {
+				continue
+			}
+			clause := ""
+			for _, ln := range strings.Split(string(src), "\n") {
+				if strings.HasPrefix(ln, "package ") {
+					clause = strings.TrimSpace(ln)
+					break
+				}
+			}
+			if clause == "" {
+				continue
+			}
+			n++
+			sf := filepath.Join(dir, fmt.Sprintf("blank%d_test.go", n))
+			os.WriteFile(sf, []byte(clause+"\n"), 0o644)
+			repl[filepath.Join(pkgDir, e.Name())] = sf
+		}
+	}
+	ov, _ := json.Marshal(map[string]interface{}{"Replace": repl})
 	ovf := filepath.Join(dir, "overlay.json")
 	os.WriteFile(ovf, ov, 0o644)
 	args := []string{"test", "-tags", "verif", "-overlay", ovf, "-vet=off", "-count=1", "-timeout", "60s", "-run", "^" + rr.TestName + "$", "-v", "./" + rr.Package}
